@@ -134,8 +134,11 @@ def worker(arg):
         files = {"ns/A.1.0.dsdl": body}
         if deps[k]["k"] is not None:
             files["ns/Dep.1.0.dsdl"] = "uint64 K = %d\n@sealed\n" % deps[k]["k"]
+        # the documented option `strict` ("reject features that are not part of the Specification") changes nothing for
+        # texts that use the Specification's features only (utf8 / byte, which postdate it, are left out)
+        strict = k == 2 and "utf8" not in body and "byte" not in body
         with dsdlio.Tree(files, "c04") as tr:
-            status, res, prints = dsdlio.read_ns(tr.path("ns"))
+            status, res, prints = dsdlio.read_ns(tr.path("ns"), **({"strict": True} if strict else {}))
         n += 1
         if exp["t"] == "skip":
             continue          # outside the magnitudes the specification evaluates: not judged here (totality is C13's concern)
@@ -172,7 +175,7 @@ def extras_worker(seed):
     cases = [("'ab' + 'cd' == 'abcd'", "true"), ("'a' + 'b' != 'ab'", "false"), ("{'a'} + 'b' == {'ab'}", "true"),
              ("'x' + {'a', 'b'} == {'xa', 'xb'}", "true"), ("'caf\\u00e9' == 'cafe\\u0301'", "true"),
              ("2 ** 64 - 1", str(2 ** 64 - 1)), ("-(2 ** 63)", str(-2 ** 63)), ("10 ** 30 / 10 ** 28", "100"),
-             ("1 / 3 + 1 / 6", "1/2"), ("0.1 + 0.2 == 0.3", "true"), ("1e3", "1000"), ("1_000.5e-1", "2001/20"),
+             ("1 / 3 + 1 / 6", "1/2"), ("'\\U0001F600' == '\\U0001f600'", "true"), ("'\\u00e9\\n\\t\\r\\\\\\'\\\"' != ''", "true"), ("0.1 + 0.2 == 0.3", "true"), ("1e3", "1000"), ("1_000.5e-1", "2001/20"),
              ("0x_ff + 0b_1 + 0o_7", str(255 + 1 + 7)), ("7 % -3", "-2"), ("-7 % 3", "2"), ("-7 / 2", "-7/2"),
              ("(-6) & 5", "0"), ("(-6) | 5", "-1"), ("(-6) ^ 5", "-1"), ("6 & 3 | 8 ^ 1", str(6 & 3 | 8 ^ 1)),
              ("{1, 2, 3}.max - {1, 2, 3}.min + {1, 2, 3}.count", "5"), ("{{1}, {1, 2}}.count", "2"),
@@ -185,9 +188,20 @@ def extras_worker(seed):
              ("(2 ** -80) ** 0.5", "1/%d" % 2 ** 40), ("1 + 2 ** -52", "%d/%d" % (2 ** 52 + 1, 2 ** 52)), ("3 * 2 ** -60", "3/%d" % 2 ** 60),
              ("(1 + 2 ** -52) * 2 ** 52", str(2 ** 52 + 1)), ("1 / 3 * 10 ** 20", "%d/3" % 10 ** 20), ("(3 ** 40) ** 0.5", str(3 ** 20)),
              ("2 ** -1074", "1/%d" % 2 ** 1074), ("0.1", "1/10"), ("1e-20 + 1", "%d/%d" % (10 ** 20 + 1, 10 ** 20))]
+    # identifiers: constants of every type read by name, in particular those whose value is "nothing" (false, 0, 0.0, NUL);
+    # (declarations; expression)
+    decl = "bool F = false\nbool T = true\nuint8 Z = 0\nint8 N = -0\nfloat32 R = 0.0\nuint8 C = '\\u0000'\nuint8 ONE = 1\nfloat64 H = 1 / 2\n"
+    cases += [(decl + "@print " + e, w) for e, w in [
+        ("F", "false"), ("T", "true"), ("Z", "0"), ("N", "0"), ("R", "0"), ("C", "0"), ("ONE", "1"), ("H", "1/2"), ("!F", "true"),
+        ("F || T", "true"), ("F && T", "false"), ("F == false", "true"), ("Z + ONE", "1"), ("Z == R", "true"), ("{F, T}.count", "2"),
+        ("{Z, N, R, C}.count", "1"), ("Z * H + H", "1/2"), ("T && !F && Z == 0 && R == 0 && C == N", "true"), ("H ** Z", "1")]]
     for text, want in cases:
-        with dsdlio.Tree({"ns/A.1.0.dsdl": "@print %s\n@sealed\n" % text}, "c04x") as tr:
+        body = "@print %s\n@sealed\n" % text if "\n" not in text else text + "\n@sealed\n"
+        with dsdlio.Tree({"ns/A.1.0.dsdl": body}, "c04x") as tr:
             status, res, prints = dsdlio.read_ns(tr.path("ns"))
+            status2, res2, prints2 = dsdlio.read_ns(tr.path("ns"), strict=True)
+        if status2 != status or [p[2] for p in prints2] != [p[2] for p in prints]:
+            diff.append(("strict=True changes the outcome of a text that uses the Specification's features only", text, str(res2)[:150]))
         if status != "ok":
             diff.append(("rejected", text, str(res)[:150]))
         elif parse_value(prints[0][2]) != parse_value(want):
